@@ -116,8 +116,7 @@ int tcp_set_keepalive(struct tcp_opts *opts, int fd, bool keepalive)
     {									\
 	if (opts->optname == value)					\
 	    return 0;							\
-	int64_t scaled_value = value * (k);				\
-	if (scaled_value <= 0 || scaled_value > INT_MAX) {		\
+	if (value <= 0 || value > INT_MAX / (k)) {			\
 	    errno = EINVAL;						\
 	    return -1;							\
 	}								\
